@@ -744,6 +744,11 @@ func (u *Unit) callSiteClauses(ev *Ev, ord string, names []string, args []Value,
 		if recv != nil {
 			sev.binds["arg_recv"] = *recv
 		}
+		// a parameter of the unit named in a call-site clause denotes its value at ENTRY, as in postconditions: a body that
+		// overwrites the parameter before handing it on must not rewrite what the clause compares with
+		if u.lit == nil {
+			u.bindEntryParams(sev, ev.st)
+		}
 		return sev
 	}
 	for i, cl := range u.c.CallAsserts[ord] {
